@@ -16,7 +16,7 @@ pub fn def() -> PropertyDef {
     PropertyDef {
         id: "C13",
         level: "exploration",
-        props: |_| vec![Box::new(LspSpectrum) as Box<dyn DynProp>, Box::new(LspAfterHistory) as Box<dyn DynProp>, Box::new(LspVoiceEngine) as Box<dyn DynProp>],
+        props: |_| vec![Box::new(LspSpectrum) as Box<dyn DynProp>, Box::new(LspAfterHistory) as Box<dyn DynProp>, Box::new(LspVoiceEngine) as Box<dyn DynProp>, Box::new(super::c06::AfterFrames(2)) as Box<dyn DynProp>],
         extra: no_extra,
         replay_custom: no_custom,
         assumptions: &[
